@@ -3,8 +3,11 @@ with how many shards, and what the evidence says about them."""
 
 CARGO = ['cargo', 'build', '--release', '--offline', '--bins']
 
+import os as _os
+
+_VERIF = _os.path.dirname(_os.path.abspath(__file__))
 TRIPLE = 'x86_64-unknown-linux-gnu'
-MIRI_RUN = ['cargo', '+nightly', 'miri', 'run', '--offline', '--manifest-path', '/verif/harness-miri/Cargo.toml']
+MIRI_RUN = ['cargo', '+nightly', 'miri', 'run', '--offline', '--manifest-path', _os.path.join(_VERIF, 'harness-miri', 'Cargo.toml')]
 
 FLAVOURS = {
     'native': dict(
@@ -54,7 +57,7 @@ def miri_leg(binname, cases, weakmem=False):
         args['weakmem'] = 1
     return dict(name='miri-weakmem' if weakmem else 'miri', bin=binname, flavour='miri', shards=16, tiers=('thorough',), sanitizer='miri',
                 runner_cmd=MIRI_RUN + ['--bin', binname, '--'], seed_flag='-Zmiri-seed=',
-                env={'MIRIFLAGS': flags, 'RUSTFLAGS': '--cfg calloop_verif', 'CARGO_TARGET_DIR': '/verif/target/miri'},
+                env={'MIRIFLAGS': flags, 'RUSTFLAGS': '--cfg calloop_verif', 'CARGO_TARGET_DIR': _os.path.join(_VERIF, 'target', 'miri')},
                 timeout=dict(thorough=3000), args=args)
 
 
@@ -205,7 +208,7 @@ PROPS = {
         legs=[dict(name='native', bin='trans', shards=16, timeout=dict(quick=300, thorough=3000)),
               dict(name='asan', bin='trans', flavour='asan', shards=16, tiers=('thorough',), sanitizer='asan', env=ASAN_ENV, timeout=dict(thorough=3000), args=dict(n=7, nreal=6)),
               dict(name='miri', bin='trans', flavour='miri', shards=16, tiers=('thorough',), sanitizer='miri', runner_cmd=MIRI_RUN + ['--bin', 'trans', '--'],
-                   env={'MIRIFLAGS': '-Zmiri-disable-isolation', 'RUSTFLAGS': '--cfg calloop_verif', 'CARGO_TARGET_DIR': '/verif/target/miri'},
+                   env={'MIRIFLAGS': '-Zmiri-disable-isolation', 'RUSTFLAGS': '--cfg calloop_verif', 'CARGO_TARGET_DIR': _os.path.join(_VERIF, 'target', 'miri')},
                    timeout=dict(thorough=3000), args=dict(n=5, nreal=0))],
         rule='evaluations = protocol-conforming operation sequences executed against the real TransientSource '
              '(every sequence of length 1..n over {child returns Continue/Reregister/Disable/Remove, remove(), replace(), '
